@@ -268,6 +268,53 @@ func applyCorruption(n *node.Node, c C07Corr, start, limit uint64, reqs []node.R
 		}
 		replies[1].Result = enc(logs)
 		return 200, encode(), true
+	case "log_tx_beyond":
+		// a log of a block that is not the last of the range names a
+		// transaction index the block body does not have (the item is then
+		// attached to a transaction of that index, and nothing else moves)
+		if kind != "logs" || e != 1 {
+			return 0, nil, false
+		}
+		logs := asArr(replies[1].Result)
+		var cand []map[string]any
+		for _, x := range logs {
+			l, _ := x.(map[string]any)
+			if l == nil || l["blockNumber"] == nil {
+				continue
+			}
+			cur, _ := strconv.ParseUint(strings.TrimPrefix(l["blockNumber"].(string), "0x"), 16, 64)
+			if cur+1 < start+limit {
+				cand = append(cand, l)
+			}
+		}
+		if len(cand) == 0 {
+			return 0, nil, false
+		}
+		l := cand[c.Arg%len(cand)]
+		cur, _ := strconv.ParseUint(strings.TrimPrefix(l["blockNumber"].(string), "0x"), 16, 64)
+		l["transactionIndex"] = hexq(uint64(len(n.Canonical(cur).Txs)) + uint64(c.Arg/len(cand))%2*40)
+		l["transactionHash"] = "0x" + hex.EncodeToString(node.Keccak([]byte(fmt.Sprint("beyond", cur))))
+		replies[1].Result = enc(logs)
+		return 200, encode(), true
+	case "trace_tx_beyond":
+		if kind != "trace" {
+			return 0, nil, false
+		}
+		ts := asArr(replies[0].Result)
+		if len(ts) == 0 {
+			return 0, nil, false
+		}
+		tr, _ := ts[c.Arg%len(ts)].(map[string]any)
+		if tr == nil {
+			return 0, nil, false
+		}
+		curf, _ := tr["blockNumber"].(float64)
+		if b := n.Canonical(uint64(curf)); b != nil {
+			tr["transactionPosition"] = len(b.Txs) + (c.Arg/len(ts))%2*40
+			tr["transactionHash"] = "0x" + hex.EncodeToString(node.Keccak([]byte(fmt.Sprint("beyond", uint64(curf)))))
+		}
+		replies[0].Result = enc(ts)
+		return 200, encode(), true
 	case "log_hash":
 		// one log (not the first of the answer) names another block hash
 		if kind != "logs" || len(replies) < 2 {
@@ -1005,7 +1052,7 @@ var c07NeedSets = [][]string{
 }
 var c07Kinds = []string{"status", "non_json", "wrong_shape", "truncate", "drop", "dup", "swap", "null", "error", "renumber", "break_parent", "break_hash",
 	"move_log_in", "move_log_out", "move_log_tx", "move_receipt_in", "move_first_receipt_in", "move_receipt_out", "move_trace_in", "move_first_trace_in", "move_trace_out",
-	"reorder_receipts", "reorder_logs", "reorder_txs", "log_hash"}
+	"reorder_receipts", "reorder_logs", "reorder_txs", "log_hash", "log_tx_beyond", "trace_tx_beyond"}
 
 var (
 	c07Once  sync.Once
@@ -1055,6 +1102,8 @@ func c07Init() {
 								args = 2
 							case "log_hash":
 								args = 6
+							case "log_tx_beyond", "trace_tx_beyond":
+								args = 4
 							case "move_log_out", "move_receipt_out", "move_trace_out":
 								args = 3
 							}
